@@ -8,7 +8,7 @@ from ..callgraph import get_callgraph
 from ..cfg import cfg_of
 from ..locks import accesses, get_locks
 from ..model import AnalysisError, NotConst, dotted, norm, walk_own
-from .common import find_calls, guards_of, key_of, mentions, mentions_attr
+from .common import cmp_fact, find_calls, guards_of, key_of, mentions, mentions_attr
 
 EXPLANATION = (
     "Finite abstract evaluation of the response-header decision ladder: build_response_header touches its inputs only "
@@ -377,7 +377,7 @@ def rule_r4(ctx):
         else:
             ctx.r.violation(rid, key_of(f, None, "clamp-slice"), "clamp slice is %s" % norm(n.ast.value), f.loc(n.ast))
         var = n.ast.targets[0].id if isinstance(n.ast.targets[0], ast.Name) else None
-        if any(pol and isinstance(t, ast.Compare) and norm(t) in ("cl is not None", "self.content_length is not None") for (t, pol) in guards_of(g, n)):
+        if any(cmp_fact(t, pol) in (("is", "cl", "None", False), ("is", "self.content_length", "None", False)) for (t, pol) in guards_of(g, n)):
             ctx.r.ok(rid, "clamp applies when a length was declared", f.loc(n.ast))
         else:
             ctx.r.violation(rid, key_of(f, None, "clamp-guard"), "clamp is not guarded by 'a Content-Length was declared'", f.loc(n.ast))
@@ -408,7 +408,7 @@ def rule_r5(ctx):
         return
     for lp in loops:
         done = [s for (s, l) in lp.succ if l == "done"]
-        nolen = [n for n in g.nodes if n.kind == "branch" and not n.polarity and isinstance(n.ast, ast.Compare) and norm(n.ast) in ("cl is not None", "self.content_length is not None")]
+        nolen = [n for n in g.nodes if n.kind == "branch" and cmp_fact(n.ast, n.polarity) in (("is", "cl", "None", True), ("is", "self.content_length", "None", True))]
         nolen += [n for n in g.nodes if n.kind == "branch" and n.polarity and isinstance(n.ast, ast.Compare) and norm(n.ast) in ("cl is None", "self.content_length is None")]
         pth = g.path(done[0], g.exit, avoid=tests + nolen, follow_exc=False) if done else None
         if pth is None:
@@ -421,7 +421,7 @@ def rule_r5(ctx):
         if br and any(g.dominates(br[0], c) for c in closes):
             # extra guards allowed: HEAD exemption only
             c0 = [c for c in closes if g.dominates(br[0], c)][0]
-            extra = [(norm(x), pol) for (x, pol) in guards_of(g, c0) if x is not t.ast and not (isinstance(x, ast.Compare) and ("cl is not None" == norm(x))) and g.dominates(t, [n for n in g.nodes if n.kind == "branch" and n.ast is x][0])]
+            extra = [(norm(x), pol) for (x, pol) in guards_of(g, c0) if x is not t.ast and not ((cmp_fact(x) or ())[:3] == ("is", "cl", "None")) and g.dominates(t, [n for n in g.nodes if n.kind == "branch" and n.ast is getattr(x, "_guard_of", x)][0])]
             bad = [e for e in extra if "HEAD" not in e[0]]
             if bad:
                 ctx.r.violation(rid, key_of(f, None, "short-body-extra-guard"), "the too-few-bytes close is additionally guarded by %s" % bad, f.loc(c0.ast))
@@ -446,14 +446,14 @@ def rule_r6(ctx, rid="C03.R6"):
     if not stores or not heads:
         ctx.r.violation(rid, key_of(f, None, "no-reconcile"), "the file wrapper branch does not store prepare()'s size as the content length before writing the head", f.loc(pn.ast))
     else:
-        neq = [n for n in g.nodes if n.kind == "branch" and n.polarity and isinstance(n.ast, ast.Compare) and isinstance(n.ast.ops[0], ast.NotEq) and size in norm(n.ast) and g.dominates(pn, n)]
+        neq = [n for n in g.nodes if n.kind == "branch" and (cmp_fact(n.ast, n.polarity) or ("",))[0] == "==" and cmp_fact(n.ast, n.polarity)[3] is False and size in norm(n.ast) and g.dominates(pn, n)]
         ok = neq and all(g.path(neq[0], h, avoid=stores, follow_exc=False) is None for h in heads)
         if ok:
             ctx.r.ok(rid, "whenever declared length != prepared size the content length is replaced before the head", f.loc(stores[0].ast))
         else:
             ctx.r.violation(rid, key_of(f, None, "reconcile-bypass"), "the head can be generated with a declared length that differs from the prepared size", f.loc(pn.ast))
         rm = [n for n, c in find_calls(g, lambda c: dotted(c.func) == "self.remove_content_length_header")]
-        if rm and all(g.path(neq[0], h, avoid=rm + [x for x in g.nodes if x.kind == "branch" and not x.polarity and norm(x.ast) == "cl is not None"], follow_exc=False) is None for h in heads) if neq else False:
+        if rm and all(g.path(neq[0], h, avoid=rm + [x for x in g.nodes if x.kind == "branch" and cmp_fact(x.ast, x.polarity) == ("is", "cl", "None", True)], follow_exc=False) is None for h in heads) if neq else False:
             ctx.r.ok(rid, "a conflicting application Content-Length header is removed", f.loc(rm[0].ast))
         else:
             ctx.r.violation(rid, key_of(f, None, "stale-cl-header"), "a conflicting application-supplied Content-Length header can survive", f.loc(pn.ast))
